@@ -369,6 +369,12 @@ def _arrays(ctx):
     ov["np.allclose"] = allclose
     ov["np.linspace"] = linspace
     ov["np.asarray"] = lambda it_, a, k: a[0] if isinstance(a[0], NdArr) else NotImplemented
+    class JaxArr(NdArr):
+        array_kind = "jax"
+
+    class NpArr(NdArr):
+        array_kind = "numpy"
+
     nm = Fr(1, 10**9)
     widths = [28 * nm, 26 * nm, 24 * nm, 22 * nm, 20 * nm]  # graded, nanometre scale: differences far below numpy's default atol
     z, acc = [Fr(0)], Fr(0)
@@ -382,7 +388,11 @@ def _arrays(ctx):
         "2-d": NdArr((2, 3), [Fr(i, 7) for i in range(6)]),
     }
     bad = []
+    both = {}
     for label, arr in cases.items():
+        both[label + " [jax]"] = JaxArr(arr.shape, arr.data)
+        both[label + " [numpy]"] = NpArr(arr.shape, arr.data)
+    for label, arr in both.items():
         try:
             back = _roundtrip(ctx, it, {"a": arr})
         except Raised as r:
@@ -402,7 +412,7 @@ def _arrays(ctx):
         return NotImplemented
 
     it.call_hooks.insert(0, hook)
-    grid = Obj(RG, dict(x_edges=cases["uniform edges"], y_edges=cases["uniform edges"], z_edges=cases["graded edges (nm)"]), "grid")
+    grid = Obj(RG, dict(x_edges=both["uniform edges [jax]"], y_edges=both["uniform edges [jax]"], z_edges=both["graded edges (nm) [jax]"]), "grid")
     cfg = Obj(ix.cls("fdtdx.config.SimulationConfig"), dict(time=Fr(1), grid=grid, backend="cpu", dtype=ExtRef("jax.numpy.float32"), courant_factor=Fr(99, 100), gradient_config=None, symmetry=(0, 0, 0)), "config")
     try:
         back = _roundtrip(ctx, it, {"config": cfg})
